@@ -126,8 +126,8 @@ gen_id_case(const std::string &p, int cap)
     if (p == "C14" && chance(50)) {
       // a holder that stays in user code for a while after taking its ID
       ops.insert(ops.begin(), mk(GETID));
-      const int extra = pick(2, 8);
-      for (int k = 0; k < extra; k++) ops.push_back(mk(chance(60) ? YIELD : SPIN, static_cast<uint32_t>(pick(1, 4))));
+      const int extra = pick(4, 24);
+      for (int k = 0; k < extra; k++) ops.push_back(mk(chance(75) ? YIELD : SPIN, static_cast<uint32_t>(pick(1, 4))));
     }
   }
   assign_probes(c, cap);
